@@ -176,9 +176,9 @@ def cbool(b):
     return "true" if b else "false"
 
 def scalar_well_formed(dhex):
-    """[keymat.k_d] is "the scalar d when present and well formed" (Auth/Prog.v): well formed is what SecretKey::from_slice
-    (elliptic-curve 0.13) accepts - 24 to 32 octets, read as a big-endian integer (shorter inputs are padded on the LEFT),
-    non-zero and below the group order; the model sees the 32-octet form"""
+    """Python twin of Auth/Scalar.v's [scalar_well_formed] (what SecretKey::from_slice accepts: 24 to 32 octets read as a
+    big-endian integer, shorter inputs padded on the LEFT, non-zero and below the group order); used by generators and
+    oracles only - the model is handed the D parameter as stored and normalises it itself ([scalar_of_stored])"""
     if dhex is None:
         return None
     d = bytes.fromhex(dhex)
@@ -191,7 +191,7 @@ def scalar_well_formed(dhex):
 
 
 def c_key(k):
-    return "(Build_keymat %s %s %s %s %s)" % (cbool(k["es256"]), cbool(k["ec2"]), copt(scalar_well_formed(k["d"]), hb), hb(k["x"]), hb(k["y"]))
+    return "(Build_keymat %s %s (scalar_of_stored %s) %s %s)" % (cbool(k["es256"]), cbool(k["ec2"]), copt(k["d"], hb), hb(k["x"]), hb(k["y"]))
 
 
 # encodings of the private scalar a stored (imported, synced) COSE key may carry; the public point is always the true one
@@ -693,6 +693,8 @@ def find_contract_oracle(sc, out):
             if e["c"] != "find":
                 continue
             want = matching(content, e["ids"], e["rp"])
+            if faulted and "err" in e["r"]:
+                continue          # an injected refusal (any status, NoCredentials included) is not the store's own answer
             got = sorted(p["cred_id"] for p in e["r"]["ok"]) if "ok" in e["r"] else ([] if e["r"]["err"] == 0x2E else None)
             if got is None:
                 if not faulted:
